@@ -211,7 +211,7 @@ def unit_merge_body(U):
             r = _native_merge_check(coords, twice=premerged)
             r2 = _native_merge_check([("c", 1, 5, "+", "exon"), ("c", 3, 9, "+", "exon"), ("c", 20, 30, "+", "exon")], twice=True)
             return {"inputs": coords, "expected": "ok", "observed": [r, r2], "violates": r != "ok" or r2 != "ok"}
-        for p in U.explore(run, it, max_paths=4000):
+        for p in U.explore(run, it, max_paths=40000):
             st = p.ctx.stash
             feats = st.get("feats")
             vars_ = {}
